@@ -460,6 +460,19 @@ def canonical_blocks(tree):
                     parts = [ast.copy_location(ast.Assign(targets=[t_], value=v_), st) for t_, v_ in zip(st.targets[0].elts, st.value.elts)]
                     block = block[:i] + parts + block[i + 1:]
                     continue
+            # a, b = f(..)[:2]   ->   a = f(..)[0]; b = f(..)[1]      (a leading slice of a call's result taken apart; as many targets as the slice is long)
+            if isinstance(st, ast.Assign) and len(st.targets) == 1 and isinstance(st.targets[0], ast.Tuple) and isinstance(st.value, ast.Subscript) \
+                    and isinstance(st.value.value, ast.Call) and isinstance(st.value.slice, ast.Slice) and st.value.slice.lower is None and st.value.slice.step is None \
+                    and isinstance(st.value.slice.upper, ast.Constant) and st.value.slice.upper.value == len(st.targets[0].elts) \
+                    and all(isinstance(t_, ast.Name) for t_ in st.targets[0].elts):
+                import copy as _copy
+                parts = []
+                for k_, t_ in enumerate(st.targets[0].elts):
+                    parts.append(ast.copy_location(ast.Assign(targets=[t_], value=ast.Subscript(value=_copy.deepcopy(st.value.value), slice=ast.Constant(value=k_), ctx=ast.Load())), st))
+                for p_ in parts:
+                    ast.fix_missing_locations(p_)
+                block = block[:i] + parts + block[i + 1:]
+                continue
             # c = E; if c: ..   ->  if E: ..      (c read nowhere else in the function)
             if isinstance(st, ast.Assign) and len(st.targets) == 1 and isinstance(st.targets[0], ast.Name) and i + 1 < len(block) \
                     and isinstance(block[i + 1], ast.If) and isinstance(block[i + 1].test, ast.Name) and block[i + 1].test.id == st.targets[0].id \
